@@ -11,13 +11,13 @@ from vf.gen import composite
 
 ID = "C04"
 RULE = ("case = statement list (cpu/segment/org/emit(list|dup)/reserve/phase/end) on Z80, 6502, 68000 "
-        "(PADDING off), 8051 (CODE/DATA/XDATA), PIC16C84 (2-byte granules), TMS320C30 (4-byte granules); "
+        "(PADDING off), 8051 (CODE/DATA/XDATA), PIC16C84 and TMS320C25 (2-byte granules), TMS320C30 (4-byte granules); "
         "line sizes from {1,2,3}, 60-64 and 510..514/1022..1026, runs built up to 65530..65540 bytes; "
         "non-trivial = a run crossing the 512-byte buffer or the 64 KiB record limit, or >= 2 segment/CPU "
         "switches, or a reservation between two emissions, or a backward ORG; distinct by (targets, boundary "
         "classes hit, #switches bucket)")
 ASSUMPTIONS = [
-    "bytes of one granule are stored little endian in the code file for PIC16C84 and TMS320C30 "
+    "bytes of one granule are stored little endian in the code file for PIC16C84, TMS320C25 and TMS320C30 "
     "(as P2HEX's INHX8M description and the pinned tree agree)",
     "after every CPU switch the generator sets segment and ORG explicitly (the state of the counters "
     "across CPU switches is C10's subject)",
@@ -39,11 +39,14 @@ T = {
                   lst="data", dup=None, res="res"),
     "320c30": dict(cpu="320c30", hid=0x76, segs={"code": (1, 4, 32, 0x1000000)},
                    lst="word", dup=None, res="bss"),
+    "320c25": dict(cpu="320c25", hid=0x75, segs={"code": (1, 2, 16, 0x10000), "data": (2, 2, 16, 0x10000)},
+                   lst="word", dup=None, res="bss"),
 }
+BIG_OK = ("z80", "6502", "68000", "320c25", "320c30")
 
 
 def budget(tier):
-    return dict(examples=3500 if tier == "quick" else 60000, shards=16)
+    return dict(examples=2500 if tier == "quick" else 60000, shards=16)
 
 
 def _sizes(d, big_ok):
@@ -66,7 +69,7 @@ def strategy_(d, tier):
     tnames = list(T)
     want_big = d.bool(0.12 if tier == "quick" else 0.2)
     for si in range(nspans):
-        tn = d.choice(["z80", "6502", "68000"]) if (want_big and si == 0) else d.choice(tnames)
+        tn = d.choice(BIG_OK) if (want_big and si == 0) else d.choice(tnames)
         t = T[tn]
         items.append(["cpu", tn])
         segs = list(t["segs"])
@@ -87,19 +90,19 @@ def strategy_(d, tier):
             op = d.weighted([(8, "emit"), (2, "res"), (2, "org"), (1, "phase")])
             room = lim - pcs[seg]
             if op == "emit":
-                n = _sizes(d, want_big and gran == 1)
-                if want_big and gran == 1 and d.bool(0.5) and total < 60000:
+                n = _sizes(d, want_big and tn in BIG_OK)
+                if want_big and tn in BIG_OK and d.bool(0.5) and total < 60000:
                     # build a run that ends a few bytes around the 64 KiB record limit
-                    n = max(1, 65535 - total + d.int(-6, 4))
-                n = min(n, room, 65535)
+                    n = max(1, (65535 - total) // gran + d.int(-6, 4))
+                n = min(n, room, 65535 // gran if not t["dup"] else 65535)
                 if n <= 0:
                     items.append(["org", 0])
                     pcs[seg] = 0
                     total = 0
                     continue
                 mode = "dup" if (t["dup"] and (n > 64 or d.bool(0.2))) else "list"
-                if mode == "list" and n > 64:
-                    n = d.int(40, 64)
+                if mode == "list" and n > 64 and not (want_big and tn in BIG_OK and not t["dup"]):
+                    n = d.int(40, 64)      # (long lists are rendered as several source lines of <= 64 units)
                 items.append(["emit", n, d.int(0, 255), d.choice([1, 3, 5, 7]), mode])
                 pcs[seg] += n
                 total += n * gran
@@ -187,7 +190,9 @@ def render_and_model(case):
             if mode == "dup":
                 lines.append("\t" + t["dup"](n, vals[0]))
             else:
-                lines.append("\t%s %s" % (t["lst"], ",".join(str(v) for v in vals)))
+                per = 64 if n > 64 else n
+                for i0 in range(0, n, per):
+                    lines.append("\t%s %s" % (t["lst"], ",".join(str(v) for v in vals[i0:i0 + per])))
             a = pcs[seg]
             for i, v in enumerate(vals):
                 for k in range(gran):
@@ -318,6 +323,12 @@ def fixed_cases(tier):
             out.append(dict(items=[["cpu", tn], ["seg", "code"], ["org", 256], ["emit", 60, 1, 1, "list"]] +
                                   [["emit", 64, i, 3, "list"] for i in range(7)] +
                                   [["emit", first - 508, 9, 1, "list"], ["emit", 1, 4, 1, "list"]]))
+    for tn, gran in (("320c25", 2), ("320c30", 4)):
+        for k in (-3, -1, 0, 1, 2):
+            units = 65536 // gran + k
+            out.append(dict(items=[["cpu", tn], ["seg", "code"], ["org", 16], ["emit", units - 40, 3, 1, "list"],
+                                   ["emit", 37, 9, 3, "list"], ["emit", 5, 1, 1, "list"], ["res", 2],
+                                   ["emit", 2, 77, 1, "list"]]))
     out.append(dict(items=[["cpu", "16c84"], ["seg", "code"], ["org", 0]] +
                           [["emit", 64, i * 11, 3, "list"] for i in range(5)] + [["res", 3], ["emit", 2, 1, 1, "list"]]))
     out.append(dict(items=[["cpu", "320c30"], ["seg", "code"], ["org", 64]] +
